@@ -516,7 +516,11 @@ def run_batch(engine_name, prop, verif_seed, n_runs, tier, wall_cap_s, workers=N
                             continue
                         agg["runs"] += 1
                         agg["steps"] += res["steps"]
-                        agg["counters"].update(res["counters"])
+                        for key, val in res["counters"].items():
+                            if key.endswith("_max"):
+                                agg["counters"][key] = max(agg["counters"][key], val)
+                            else:
+                                agg["counters"][key] += val
                         agg["distinct"] |= res["distinct"]
                         agg["states"] |= res["states"]
                         agg["digests"][res["run_index"]] = res["digest"]
